@@ -241,3 +241,79 @@ def run(R: vlib.Run):
                            {"api": a, "x": x.tolist(), "gulp": g, "start": s, "nsamps": n, "params": p, "impl": o})
     finally:
         shutil.rmtree(d, ignore_errors=True)
+
+
+def scale(R: vlib.Run):
+    """at-scale search: written blocks of more than 2**20 / 2**22 elements at every output depth, ranges beyond the default gulp"""
+    from sigpyproc.readers import FilReader
+    nprng = np.random.default_rng(R.seed + 707)
+    rng = R.rng
+    d = os.path.join(vlib.SCRATCH, f"c07s_{os.getpid()}")
+    os.makedirs(d, exist_ok=True)
+    try:
+        for nbits, nch, N, splits in ((1, 128, 40000, [25000]), (2, 64, 40000, []), (4, 64, 70000, []), (8, 256, 20000, [9000]), (32, 64, 40000, [])):
+            hi = min(1 << nbits, 64)
+            x = nprng.integers(0, hi, (N, nch), dtype=np.uint8)
+            paths = filutil.write_fil_set(os.path.join(d, f"in{nbits}"), x, nbits, splits, fch1=400.0, foff=-200.0 / nch, tsamp=0.001)
+            fil = FilReader(paths)
+            out = os.path.join(d, "out.fil")
+            for start, nsamps in ((0, N), (777, N - 3000)):
+                sel = x[start:start + nsamps]
+                for gulp in (16384, 65536, 5000):
+                    base = {"nbits": nbits, "nchans": nch, "N": N, "splits": splits, "start": start, "nsamps": nsamps, "gulp": gulp,
+                            "data": f"numpy.random.default_rng({R.seed + 707}) stream, see props/c07.py scale()"}
+                    R.tick(base)
+                    R.case(("scale", nbits, start, nsamps, gulp), regime="scale")
+
+                    def check(name, want, nbits_out, path=out, tol=0):
+                        h, got, rawlen = reread(path)
+                        if h == "exc":
+                            R.fail(f"scale-{name}", "output file cannot be re-read at scale", dict(base, exc=got)); return
+                        exp_bytes = want.shape[0] * want.shape[1] * nbits_out // 8
+                        if h.nbits != nbits_out or rawlen != exp_bytes or h.nsamples != want.shape[0] or got.shape != want.shape:
+                            R.fail(f"scale-{name}", "output size / depth at scale differs from what the transform defines",
+                                   dict(base, bytes=rawlen, expected_bytes=exp_bytes, nsamples=h.nsamples, want_nsamples=int(want.shape[0]))); return
+                        bad = np.abs(got.astype(np.float64) - want) > tol
+                        if bad.any():
+                            t, c = np.argwhere(bad)[0]
+                            R.fail(f"scale-{name}", "data section at scale differs from the whole-array transform",
+                                   dict(base, first_bad_sample=int(t), first_bad_chan=int(c), n_bad=int(bad.sum())))
+
+                    def attempt(name, f):
+                        try:
+                            f(); return True
+                        except Exception as e:  # noqa: BLE001
+                            R.fail(f"scale-{name}", "transform raised at scale", dict(base, exc=f"{type(e).__name__}: {str(e)[:100]}")); return False
+
+                    if attempt("invert_freq", lambda: fil.invert_freq(outfile_name=out, gulp=gulp, start=start, nsamps=nsamps, quiet=True)):
+                        check("invert_freq", sel[:, ::-1].astype(np.float64), nbits)
+                    mask = nprng.integers(0, 2, nch).astype(bool); mv = int(nprng.integers(0, hi))
+                    if attempt("apply_channel_mask", lambda: fil.apply_channel_mask(mask, mv, outfile_name=out, gulp=gulp, start=start, nsamps=nsamps, quiet=True)):
+                        w = sel.astype(np.float64); w[:, mask] = mv
+                        check("apply_channel_mask", w, nbits)
+                    if attempt("extract_samps", lambda: fil.extract_samps(start, nsamps, outfile_name=out, gulp=gulp, quiet=True)):
+                        check("extract_samps", sel.astype(np.float64), nbits)
+                    if gulp == 16384:
+                        names = []
+                        if attempt("extract_bands", lambda: names.extend(fil.extract_bands(0, nch, chanpersub=nch // 2, outfile_base=os.path.join(d, "bd"), gulp=gulp, start=start, nsamps=nsamps, quiet=True))):
+                            for ib, nm in enumerate(names[:2]):
+                                check("extract_bands", sel[:, ib * (nch // 2):(ib + 1) * (nch // 2)].astype(np.float64), nbits, path=nm)
+                        tf, ff = 2, 2
+                        if attempt("downsample", lambda: fil.downsample(tfactor=tf, ffactor=ff, outfile_name=out, gulp=gulp, start=start, nsamps=nsamps, quiet=True)):
+                            no = nsamps // tf
+                            grp = sel[:no * tf].astype(np.int64).reshape(no, tf, nch // ff, ff).sum(axis=(1, 3))
+                            check("downsample", (grp / (tf * ff)) if nbits == 32 else (grp // (tf * ff)).astype(np.float64), nbits, tol=1e-4 if nbits == 32 else 0)
+                        if nbits in (8, 32):
+                            dm = next((float(v) for v in np.linspace(0.5, 400, 200) if 500 < int(fil.header.get_dmdelays(float(v)).max()) < 2000), 1.0)
+                            delays = fil.header.get_dmdelays(dm).astype(int); md = int(delays.max()); nsub = 4
+                            if attempt("subband", lambda: fil.subband(dm, nsub, outfile_name=out, gulp=gulp, start=start, nsamps=nsamps, quiet=True)):
+                                no = nsamps - md
+                                w = np.zeros((no, nsub)); per = nch // nsub
+                                for c in range(nch):
+                                    w[:, c // per] += sel[delays[c]:delays[c] + no, c]
+                                check("subband", w, 32)
+            del fil
+            for p in paths:
+                os.remove(p)
+    finally:
+        shutil.rmtree(d, ignore_errors=True)
